@@ -619,8 +619,51 @@ def _deep_one_sided(a, b):
     return False
 
 
+NUMERIC_RANGES = [None]      # optional hook: name -> (low, high) for the sample points of the numeric veto (symcheck installs its ranges)
+
+
+def _numerically_equal(a, b, trials=8, need=4, rel=1e-13):
+    """True when both forms can be evaluated in doubles at `need` or more sample points and agree at every one of them to `rel` (a few
+    hundred ulps).  Two forms that agree that well everywhere they are looked at cannot be called DEFINITELY different: the independence
+    argument behind such a verdict has then met an identity the normal form does not know (exp(log x + r) = x exp(r) behind a quotient)."""
+    if not isinstance(a, Rat) or not isinstance(b, Rat):
+        return False
+    ids = sorted(set(a.atoms(deep=True)) | set(b.atoms(deep=True)))
+    syms = [TABLE.atoms[k] for k in ids if TABLE.atoms[k].kind == 'sym' and TABLE.atoms[k].name != 'pi']
+    try:
+        shared = sorted(_shared_opaque(a, b))
+    except Exception:
+        return False
+    rng = NUMERIC_RANGES[0]
+    ok = 0
+    for t in range(trials):
+        env = {}
+        for j, s_ in enumerate(syms):
+            lo, hi = (rng[s_.name] if rng is not None else _sample_range(s_.name))
+            env[s_.id] = lo + (hi - lo) * (((t + 1) * 0.6180339887498949 + (j + 1) * 0.7548776662466927) % 1.0)
+        for j, k in enumerate(shared):
+            env[k] = 0.3 + 0.6 * (((t + 1) * 0.5545497 + (j + 1) * 0.3819660) % 1.0)
+        try:
+            va, vb = evalf(a, env), evalf(b, env)
+        except (NotEvaluable, ZeroDivisionError, OverflowError, ValueError):
+            continue
+        if va != va or vb != vb:
+            continue
+        if abs(va - vb) > rel * max(abs(va), abs(vb), 1e-300):
+            return False
+        ok += 1
+    return ok >= need
+
+
 def decide_equal(a, b, budget=None, _why=None):
     r = _decide_equal(a, b, budget, _why)
+    if r == 'different' and _DECIDE_DEPTH[0] == 0:
+        try:
+            if _numerically_equal(a, b):
+                return 'unknown'
+        except RecursionError:
+            pass
+        return r
     if r == 'unknown' and _DECIDE_DEPTH[0] == 0:
         try:
             if _deep_one_sided(a, b):
